@@ -212,6 +212,19 @@ class ConstantExpressionEvaluator:
             op_map["|"] = lambda x, y: x | y
             op_map["&"] = lambda x, y: x & y
             op_map["^"] = lambda x, y: x ^ y
+        elif isinstance(expr.typ, types.EnumType):
+            # Operands of enumerated type are integers (C11 6.7.2.2):
+            op_map.update(
+                {
+                    "/": c_div,
+                    "%": c_rem,
+                    ">>": lambda x, y: x >> y,
+                    "<<": lambda x, y: x << y,
+                    "|": lambda x, y: x | y,
+                    "&": lambda x, y: x & y,
+                    "^": lambda x, y: x ^ y,
+                }
+            )
         else:
             op_map["/"] = lambda x, y: x / y
 
